@@ -174,7 +174,7 @@ func replyCannotBeAddressed(t xml.StartElement) string {
 	if t.Name.Local != "iq" || (t.Name.Space != stanza.NSClient && t.Name.Space != stanza.NSServer) {
 		return "no"
 	}
-	needs, badFrom, goodFrom := false, false, false
+	needs, noNeed, badFrom, goodFrom := false, false, false, false
 	// (only unqualified attributes are the stanza's own; with duplicates any of
 	// them may be the one looked at)
 	for _, a := range t.Attr {
@@ -185,6 +185,8 @@ func replyCannotBeAddressed(t xml.StartElement) string {
 		case "type":
 			if a.Value == "get" || a.Value == "set" {
 				needs = true
+			} else {
+				noNeed = true
 			}
 		case "from":
 			if _, err := jid.Parse(a.Value); a.Value != "" && err != nil {
@@ -195,7 +197,9 @@ func replyCannotBeAddressed(t xml.StartElement) string {
 		}
 	}
 	switch {
-	case needs && badFrom && goodFrom:
+	case needs && badFrom && (goodFrom || noNeed):
+		// duplicate from or type attributes that disagree: which of them counts
+		// is not specified
 		return "either"
 	case needs && badFrom:
 		return "yes"
@@ -362,7 +366,7 @@ var snippets = []string{
 	`<iq xmlns:x="urn:verif:x" x:from="test@example.net" from="test@example.net" type="get" id="q"><p xmlns="urn:verif:x"/></iq>`,
 	`<message from="test@example.net" xmlns:x="urn:verif:x" x:from="test@example.net"/>`,
 	`<presence from="other@example.com" from="test@example.net"/>`,
-	`<iq type="get" id="dup" from="other@example.com" from="me@"/>`, `<iq type="set" id="dup" from="@" from="other@example.com"/>`,
+	`<iq type="get" id="dup" from="other@example.com" from="me@"/>`, `<iq type="get" id="dup2" from="@" type="result"/>`, `<iq type="set" id="dup" from="@" from="other@example.com"/>`,
 	`<message xml:lang="en" from='test@example.net'>t</message>`,
 	` `, "\n", "\r\n", "\t", `<`, `>`, `/>`, `</`, `"`, `<a>`, `</a>`, `<a/>`, "\x00", "\xff", "\u2028",
 	`<stream:stream xmlns:stream="http://etherx.jabber.org/streams" version="1.0">`,
